@@ -563,19 +563,28 @@ func (e *Engine) libIntrinsic(fn *ssa.Function, full string, args []Value) (Valu
 		e.sortStrings(args[0].(SliceVal))
 		return nil, true
 	case "sort.Slice", "sort.SliceStable":
-		// insertion sort driven by the caller's less function (forks on its answers);
-		// the result is a stable sort, one of the permutations sort.Slice may produce
+		// insertion sort driven by the caller's less function (forks on its answers).
+		// sort.SliceStable keeps equal elements in place; sort.Slice promises
+		// nothing about them, so for sort.Slice two elements that less orders
+		// neither way may come out in either order (a free choice per comparison)
 		iv := args[0].(IfaceVal)
 		sl, ok := iv.val.(SliceVal)
 		if !ok {
 			unsupported("sort.Slice of %v", iv.typ)
 		}
 		less := args[1].(FuncVal)
+		unstable := full == "sort.Slice"
 		for i := 1; i < sl.len; i++ {
 			for j := i; j > 0; j-- {
 				r := e.callFuncVal(less, []Value{mkInt(int64(j)), mkInt(int64(j - 1))}).(*Term)
 				if !e.decide(r) {
-					break
+					if !unstable {
+						break
+					}
+					back := e.callFuncVal(less, []Value{mkInt(int64(j - 1)), mkInt(int64(j))}).(*Term)
+					if e.decide(back) || !e.decide(e.fresh("tie", true)) {
+						break
+					}
 				}
 				a, b := &sl.arr.elems[sl.off+j], &sl.arr.elems[sl.off+j-1]
 				ta, tb := copyVal(*a), copyVal(*b)
